@@ -141,6 +141,8 @@ def tomo_oracle(args):
     rng = np.random.default_rng(args["seed"])
     L, segs, solver = args["L"], args["segments"], args["solver"]
     J, g = float(rng.uniform(0.5, 1.2)), float(rng.uniform(0.3, 1.0))
+    # weakly driven chains: the forced projections between the segments then have branch weights of 1e-10 and below
+    J, g = float(args.get("J", J)), float(args.get("g", g))
     H, hd = MPO.ising(L, J, g), dense.ising(L, J, g)
     if args.get("ham") == "pauli":  # site-dependent fields and couplings: not symmetric under reversing the chain
         from drivers.C05 import pauli_terms
@@ -150,7 +152,7 @@ def tomo_oracle(args):
         H.from_pauli_sum(terms=terms, length=L)
     dt = args.get("dt", 0.05)
     par = AnalogSimParams(observables=[], elapsed_time=segs[0], dt=dt, solver=solver, show_progress=False, threshold=1e-13,
-                          max_bond_dim=16, get_state=True)
+                          max_bond_dim=16, get_state=True, order=int(args.get("order", 2)))
     with common.time_limit(900):
         pt = tomography.run(H, par, timesteps=list(segs), num_trajectories=1)
     # held-out preparations and interventions: SEVERAL predictions from the same process tensor (a prediction must not depend on
@@ -207,11 +209,16 @@ def search(ctx):
             # the dense back-end with intermediate interventions (re-preparation of an evolved, complex state)
             dict(seed=6, L=2, segments=[0.1, 0.1], solver="MCWF"), dict(seed=7, L=3, segments=[0.2, 0.1], solver="MCWF", dt=0.1),
             dict(seed=8, L=3, segments=[0.1], solver="MCWF", dt=0.1, ham="pauli"), dict(seed=9, L=2, segments=[0.1, 0.2], solver="MCWF", dt=0.1, ham="pauli"),
-            dict(seed=10, L=3, segments=[0.1, 0.1], solver="TJM", ham="pauli")]
+            dict(seed=10, L=3, segments=[0.1, 0.1], solver="TJM", ham="pauli"),
+            # first-order driver; weak transverse fields (branch weights of the intermediate projections far below 1e-8)
+            dict(seed=11, L=2, segments=[0.1, 0.2], solver="TJM", order=1), dict(seed=12, L=2, segments=[0.1, 0.2], solver="TJM", order=1, g=1e-4, J=1.0),
+            dict(seed=13, L=3, segments=[0.1, 0.1], solver="TJM", order=2, g=3e-4, J=0.7), dict(seed=14, L=2, segments=[0.05, 0.05, 0.05], solver="TJM", order=1, g=2e-5),
+            dict(seed=15, L=2, segments=[0.1, 0.1], solver="MCWF", dt=0.1, g=1e-4)]
     if not ctx.quick:
         plan += [dict(seed=int(ctx.rng.integers(0, 2**31)), L=int(ctx.rng.integers(2, 4)), segments=[0.1, 0.1] if k % 3 == 0 else [round(int(ctx.rng.integers(1, 7)) * 0.05, 2)] if k % 3 == 1
                       else [float(ctx.rng.uniform(0.05, 0.3))],
-                      solver=str(ctx.rng.choice(["TJM", "MCWF"]))) for k in range(10)]
+                      solver=str(ctx.rng.choice(["TJM", "MCWF"])), order=int(ctx.rng.integers(1, 3)),
+                      **({"g": float(10.0 ** ctx.rng.uniform(-6, -2))} if k % 4 == 0 else {})) for k in range(10)]
     for a in plan:
         try:
             why = tomo_oracle(a)
